@@ -256,3 +256,208 @@ Proof.
   - rewrite !genv_second. go. rewrite !norm_int32, !norm_int64. unfold second.
       brk; [|brk]; rewrite HD; go; rewrite ts_ptr_fold, HO; brk; reflexivity.
 Qed.
+
+(* ================================================================ runtime.go: the option builders *)
+Lemma child_limit_correct : child_limit_stmt.
+Proof.
+  intros depth Hd Hpos. apply in_int_iff in Hd. unfold child_limit.
+  rewrite wrap64_id' by lia. split; intro H.
+  - destruct (Z.leb_spec (depth - 1) 0); [reflexivity|lia].
+  - destruct (Z.leb_spec (depth - 1) 0); [lia|reflexivity].
+Qed.
+
+Lemma options_prog_correct : options_prog_stmt.
+Proof.
+  intros a b flags depth lf dp Hf Hd nul res. subst nul res. apply in_uint8_iff in Hf.
+  split; [|split].
+  - enter. go. unfold marshal_input. go. reflexivity.
+  - enter. go. unfold marshal_input. go. reflexivity.
+  - enter. go. unfold unmarshal_input. go. rewrite !norm_int.
+    unfold unmarshal_options_spec, child_limit. cbv zeta. brk; reflexivity.
+Qed.
+
+(* ================================================================ loops: named copies of the interpreter's inner fixpoints *)
+Section Loops.
+  Variable genv : goenv.
+  Variable call : gname -> list gvalue -> gres.
+  Variable lf : nat.
+
+  Definition exec_blk (b : list gstmt) (en : goenv) : stres := go_leave en (go_block genv call lf b en).
+
+  Definition for_loop (c : option gexpr) (post body : list gstmt) : nat -> goenv -> stres :=
+    fix for_loop (fuel : nat) (en : goenv) {struct fuel} : stres :=
+    match fuel with
+    | O => SrFuel
+    | S f =>
+      go_lift (match c with Some ce => go_eval genv call en ce | None => ErOk (GvBool true) end) (fun v =>
+        match v with
+        | GvBool false => SrNext en
+        | GvBool true =>
+          match exec_blk body en with
+          | SrNext en' | SrCont en' =>
+            match go_block genv call lf post en' with
+            | SrNext en'' => for_loop f en''
+            | SrBreak _ | SrCont _ => SrStuck
+            | r => r
+            end
+          | SrBreak en' => SrNext en'
+          | r => r
+          end
+        | _ => SrStuck
+        end)
+    end.
+
+  Lemma exec_for init c post body en :
+    go_exec genv call lf (StFor init c post body) en =
+    go_leave en (match go_block genv call lf init en with
+                 | SrNext en1 => for_loop c post body lf en1
+                 | SrBreak _ | SrCont _ => SrStuck
+                 | r => r
+                 end).
+  Proof. reflexivity. Qed.
+
+  Lemma for_loop_S c post body f en :
+    for_loop c post body (S f) en =
+      go_lift (match c with Some ce => go_eval genv call en ce | None => ErOk (GvBool true) end) (fun v =>
+        match v with
+        | GvBool false => SrNext en
+        | GvBool true =>
+          match exec_blk body en with
+          | SrNext en' | SrCont en' =>
+            match go_block genv call lf post en' with
+            | SrNext en'' => for_loop c post body f en''
+            | SrBreak _ | SrCont _ => SrStuck
+            | r => r
+            end
+          | SrBreak en' => SrNext en'
+          | r => r
+          end
+        | _ => SrStuck
+        end).
+  Proof. reflexivity. Qed.
+
+  Lemma exec_if c a b en :
+    go_exec genv call lf (StIf c a b) en =
+    go_lift (go_eval genv call en c) (fun v =>
+      match v with GvBool true => exec_blk a en | GvBool false => exec_blk b en | _ => SrStuck end).
+  Proof. reflexivity. Qed.
+End Loops.
+
+(* ================================================================ runtime.go: EncodeVarint *)
+Definition ev_cond : gexpr := ExBin BGe (ExVar "v") (ExBin BShl (ExConst 1) (ExConst 7)).
+Definition ev_body : list gstmt :=
+  [StAssign (LvIndex "dAtA" (ExVar "offset")) (ExConv TUint8 (ExBin BOr (ExBin BAnd (ExVar "v") (ExConst 127)) (ExConst 128)));
+   StOpAssign BShr (LvVar "v") (ExConst 7);
+   StInc (LvVar "offset")].
+Definition ev_env (base : Z) (buf : list byte) (off : Z) (v : N) : goenv :=
+  [("base"%gname, intv base); ("dAtA"%gname, GvBytes buf); ("offset"%gname, intv off); ("v"%gname, u64v v)].
+
+(* the loop alone: Runtime.ev_loop without the last write *)
+Fixpoint ev_pre (fuel : nat) (buf : list byte) (off : Z) (v : N) : outcome (list byte * Z * N) :=
+  match fuel with
+  | O => OutOfFuel
+  | S f =>
+    if (128 <=? v)%N then
+      if in_range buf off
+      then ev_pre f (upd buf (Z.to_nat off) (n2b (N.lor (N.land v 127) 128))) (off + 1)%Z (N.shiftr v 7)
+      else Panic
+    else Ok (buf, off, v)
+  end.
+Lemma ev_loop_pre fuel : forall buf off v,
+  ev_loop fuel buf off v =
+  match ev_pre fuel buf off v with
+  | Ok (b, o, w) => if in_range b o then Ok (upd b (Z.to_nat o) (n2b w)) else Panic
+  | Err => Err | Panic => Panic | OutOfFuel => OutOfFuel
+  end.
+Proof.
+  induction fuel as [|f IH]; intros buf off v; cbn [ev_loop ev_pre]; [reflexivity|].
+  destruct (128 <=? v)%N; [|reflexivity]. destruct (in_range buf off); [apply IH|reflexivity].
+Qed.
+
+
+Lemma bytes_set_eq buf off b :
+  bytes_set buf off b = if in_range buf off then ErOk (upd buf (Z.to_nat off) (n2b (Z.to_N b))) else ErPanic.
+Proof. reflexivity. Qed.
+Lemma leb_ofN a b : (Z.of_N a <=? Z.of_N b) = (a <=? b)%N.
+Proof. destruct (Z.leb_spec (Z.of_N a) (Z.of_N b)); destruct (N.leb_spec a b); try reflexivity; lia. Qed.
+Lemma n2b_mod256 n : n2b (n mod 256) = n2b n.
+Proof. unfold n2b. rewrite N.mod_mod by discriminate. reflexivity. Qed.
+Lemma n2b_uint8 n : n2b (Z.to_N (ity_norm TUint8 (Z.of_N n))) = n2b n.
+Proof. rewrite norm_uint8. change 256 with (Z.of_N 256). rewrite <- N2Z.inj_mod, N2Z.id. apply n2b_mod256. Qed.
+
+Lemma ev_pre_S f buf off v :
+  ev_pre (S f) buf off v =
+    if (128 <=? v)%N then
+      if in_range buf off
+      then ev_pre f (upd buf (Z.to_nat off) (n2b (N.lor (N.land v 127) 128))) (off + 1)%Z (N.shiftr v 7)
+      else Panic
+    else Ok (buf, off, v).
+Proof. reflexivity. Qed.
+Lemma in_range_bounds buf off : in_range buf off = true -> 0 <= off < Z.of_nat (length buf).
+Proof. unfold in_range. intro H. apply andb_prop in H. lia. Qed.
+Lemma shiftr7_lt v f : (v < 128 * 2 ^ (7 * N.of_nat (S f)) -> N.shiftr v 7 < 128 * 2 ^ (7 * N.of_nat f))%N.
+Proof.
+  intro Hv. rewrite N.shiftr_div_pow2. change (2 ^ 7)%N with 128%N.
+  apply N.div_lt_upper_bound; [discriminate|].
+  replace (7 * N.of_nat (S f))%N with (7 + 7 * N.of_nat f)%N in Hv by lia.
+  rewrite N.pow_add_r in Hv. change (2 ^ 7)%N with 128%N in Hv. lia.
+Qed.
+
+Lemma ev_loop_go genv call lf0 base f : forall k buf off v,
+  (v < 128 * 2 ^ (7 * N.of_nat f))%N -> in_ity TInt off -> Z.of_nat (length buf) + 10 <= Z.of_N two63 ->
+  for_loop genv call lf0 (Some ev_cond) [] ev_body (S f + k) (ev_env base buf off v) =
+  match ev_pre (S f) buf off v with
+  | Ok (b, o, w) => SrNext (ev_env base b o w)
+  | Panic => SrPanic
+  | OutOfFuel => SrFuel
+  | Err => SrStuck
+  end.
+Proof.
+  induction f as [|f IH]; intros k buf off v Hv Hoff Hlen.
+  - cbn [Nat.add]. rewrite for_loop_S. unfold ev_cond, ev_body, exec_blk, ev_env. go.
+    change (Z.shiftl 1 7) with (Z.of_N 128). rewrite leb_ofN. cbn [ev_pre].
+    destruct (N.leb_spec 128 v) as [H|H]; [cbn in Hv; lia|]. reflexivity.
+  - cbn [Nat.add]. rewrite for_loop_S, ev_pre_S.
+    pose proof (shiftr7_lt v f Hv) as Hv'.
+    unfold ev_cond at 1. unfold ev_body at 1. unfold exec_blk, ev_env. go.
+    change (Z.shiftl 1 7) with (Z.of_N 128). rewrite leb_ofN.
+    destruct (N.leb_spec 128 v) as [H|H]; [|reflexivity].
+    rewrite bytes_set_eq. destruct (in_range buf off) eqn:Hr; go; [|reflexivity].
+    apply in_range_bounds in Hr. apply in_int_iff in Hoff. change (Z.of_N two63) with 9223372036854775808 in Hlen.
+    assert (E1 : n2b (Z.to_N (ity_norm TUint8 (Z.lor (Z.land (Z.of_N v) 127) 128))) = n2b (N.lor (N.land v 127) 128)).
+    { change 127 with (Z.of_N 127). change 128 with (Z.of_N 128). rewrite <- ofN_land, <- ofN_lor. apply n2b_uint8. }
+    assert (E2 : ity_norm TInt (off + 1) = off + 1) by (rewrite norm_int; apply wrap64_id'; lia).
+    assert (E3 : shr_z 64 (Z.of_N v) 7 = Z.of_N (N.shiftr v 7)).
+    { unfold shr_z. nc. cbv iota. change 7 with (Z.of_N 7). symmetry. apply ofN_shiftr. }
+    rewrite E1, E2, E3.
+    assert (Ho' : in_ity TInt (off + 1)) by (apply in_int_iff; lia).
+    assert (Hl' : Z.of_nat (length (upd buf (Z.to_nat off) (n2b (N.lor (N.land v 127) 128)))) + 10 <= Z.of_N two63) by (rewrite upd_length; exact Hlen).
+    exact (IH k _ (off + 1) _ Hv' Ho' Hl').
+Qed.
+
+Lemma encodevarint_prog_correct : encodevarint_prog_stmt.
+Proof.
+  intros buf off v lf dp Hv Hoff Hlen.
+  pose proof (sov_prog_correct v (10 + lf)%nat dp Hv) as HS. unfold run_fun in HS. cbn [Nat.add] in HS.
+  enter. unfold canon_runtime at 1. unfold canon_EncodeVarint.
+  match goal with |- context [StFor ?a ?b ?c ?d] => set (L := StFor a b c d) end.
+  go. rewrite HS. go. subst L. rewrite exec_for. gocbn.
+  rewrite norm_int.
+  set (base := off - Z.of_N (Sov v)). set (o := wrap64 base).
+  change (for_loop ?g ?c ?l _ _ _ _ _) with (for_loop g c l (Some ev_cond) [] ev_body (S 9 + lf) (ev_env o buf o v)).
+  pose proof (Sov_bounds v Hv) as HSov. apply in_int_iff in Hoff.
+  assert (Ho : in_ity TInt o) by (apply in_int_iff, wrap64_range).
+  rewrite ev_loop_go; [|eapply N.lt_le_trans; [exact Hv|vm_compute; discriminate]|exact Ho|exact Hlen].
+  assert (HE : EncodeVarint buf off v = match ev_loop 10 buf o v with Ok b => Ok (b, o) | Err => Err | Panic => Panic | OutOfFuel => OutOfFuel end).
+  { unfold EncodeVarint. fold base. destruct (Z_le_gt_dec (- 9223372036854775808) base) as [Hb|Hb].
+    - unfold o. rewrite wrap64_id' by lia. reflexivity.
+    - assert (Hv70 : (v < 2 ^ (7 * N.of_nat 10))%N) by (eapply N.lt_trans; [exact Hv|reflexivity]).
+      pose proof (enc_varint_len_bounds v) as Hel. unfold enc_varint in Hel.
+      change (Z.of_N two63) with 9223372036854775808 in Hlen.
+      rewrite (ev_loop_panics 10 v buf base) by (try exact Hv70; lia).
+      rewrite (ev_loop_panics 10 v buf o); [reflexivity|lia|exact Hv70|].
+      right. unfold o. rewrite wrap64_arith. change (Z.of_N two63) with 9223372036854775808. change (Z.of_N two64) with 18446744073709551616. lia. }
+  rewrite HE. rewrite ev_loop_pre.
+  destruct (ev_pre 10 buf o v) as [[[b o'] w]| | |]; unfold ev_env; go; try reflexivity.
+  rewrite bytes_set_eq. rewrite n2b_uint8. destruct (in_range b o'); go; reflexivity.
+Qed.
